@@ -209,6 +209,17 @@ func (n *Node) attesterDuties(ctx context.Context, opts *api.AttesterDutiesOpts,
 	case "nil-data":
 		f.Att = map[int]*apiv1.AttesterDuty{}
 		return &api.Response[[]*apiv1.AttesterDuty]{Data: nil, Metadata: md()}, nil
+	case "out-of-range":
+		// position beyond the committee, committee beyond the slot's committees
+		if len(out) > 0 {
+			out[0].ValidatorCommitteeIndex = out[0].CommitteeLength + 5
+			out[0].CommitteeIndex = phase0.CommitteeIndex(out[0].CommitteesAtSlot + 3)
+			f.Att = map[int]*apiv1.AttesterDuty{}
+		}
+	case "foreign-validator":
+		// a duty for a validator vouch never asked about, and a nil entry
+		x := &apiv1.AttesterDuty{PubKey: PubKey(9999), Slot: phase0.Slot(uint64(opts.Epoch) * n.M.P.SlotsPerEpoch), ValidatorIndex: 9999, CommitteeLength: 1, CommitteesAtSlot: 1}
+		out = append(out, x)
 	}
 	return &api.Response[[]*apiv1.AttesterDuty]{Data: out, Metadata: md()}, nil
 }
@@ -253,6 +264,16 @@ func (n *Node) ProposerDuties(ctx context.Context, opts *api.ProposerDutiesOpts)
 	case "empty":
 		out = nil
 		f.Prop = map[uint64]int{}
+	case "nil-data":
+		f.Prop = map[uint64]int{}
+		return &api.Response[[]*apiv1.ProposerDuty]{Data: nil, Metadata: md()}, nil
+	case "duplicate":
+		if len(out) > 0 {
+			x := *out[0]
+			out = append(out, &x)
+		}
+	case "foreign-validator":
+		out = append(out, &apiv1.ProposerDuty{PubKey: PubKey(9999), Slot: phase0.Slot(uint64(opts.Epoch)*n.M.P.SlotsPerEpoch + 1), ValidatorIndex: 9999})
 	}
 	return &api.Response[[]*apiv1.ProposerDuty]{Data: out, Metadata: md()}, nil
 }
@@ -277,6 +298,19 @@ func (n *Node) SyncCommitteeDuties(ctx context.Context, opts *api.SyncCommitteeD
 		}
 		f.Sync[v] = pos
 		out = append(out, &apiv1.SyncCommitteeDuty{PubKey: PubKey(v), ValidatorIndex: phase0.ValidatorIndex(v), ValidatorSyncCommitteeIndices: append([]phase0.CommitteeIndex{}, pos...)})
+	}
+	switch n.odd("SyncCommitteeDuties") {
+	case "empty":
+		out = nil
+		f.Sync = map[int][]phase0.CommitteeIndex{}
+	case "nil-data":
+		f.Sync = map[int][]phase0.CommitteeIndex{}
+		return &api.Response[[]*apiv1.SyncCommitteeDuty]{Data: nil, Metadata: md()}, nil
+	case "out-of-range":
+		if len(out) > 0 {
+			out[0].ValidatorSyncCommitteeIndices = append(out[0].ValidatorSyncCommitteeIndices, phase0.CommitteeIndex(n.M.Chain.SyncCommitteeSize+7))
+			f.Sync = map[int][]phase0.CommitteeIndex{}
+		}
 	}
 	return &api.Response[[]*apiv1.SyncCommitteeDuty]{Data: out, Metadata: md()}, nil
 }
@@ -342,6 +376,16 @@ func (n *Node) RunStream(ctx context.Context, first uint64, last uint64, extraDe
 		inc := liveInc()
 		if inc == 0 {
 			continue
+		}
+		switch n.odd("BlockEvent") {
+		case "nil-data":
+			n.Emit("block", nil, inc)
+		}
+		switch n.odd("HeadEvent") {
+		case "nil-data":
+			n.Emit("head", nil, inc)
+		case "far-future-slot":
+			n.Emit("head", &apiv1.HeadEvent{Slot: phase0.Slot(s + 1<<40), Block: root}, inc)
 		}
 		n.Emit("block", &apiv1.BlockEvent{Slot: phase0.Slot(s), Block: root}, inc)
 		n.Emit("head", &apiv1.HeadEvent{
@@ -410,6 +454,13 @@ func (n *Node) AggregateAttestation(ctx context.Context, opts *api.AggregateAtte
 	switch n.odd("AggregateAttestation") {
 	case "nil-data":
 		return &api.Response[*phase0.Attestation]{Data: nil, Metadata: md()}, nil
+	case "nil-att-data":
+		return &api.Response[*phase0.Attestation]{Data: &phase0.Attestation{AggregationBits: bitfield.NewBitlist(4)}, Metadata: md()}, nil
+	case "empty-bits":
+		if ad != nil {
+			cp := *ad
+			return &api.Response[*phase0.Attestation]{Data: &phase0.Attestation{AggregationBits: bitfield.NewBitlist(0), Data: &cp}, Metadata: md()}, nil
+		}
 	}
 	if ad == nil {
 		return nil, errors.New("GET failed with status 404: attestation data root unknown")
@@ -512,6 +563,8 @@ func (n *Node) Proposal(ctx context.Context, opts *api.ProposalOpts) (*api.Respo
 		vp.ConsensusValue, vp.ExecutionValue = nil, nil
 	case "blinded-no-auction":
 		vp.Blinded = true
+	case "nil-body":
+		blk.Body = nil
 	}
 	return &api.Response[*api.VersionedProposal]{Data: vp, Metadata: md()}, nil
 }
